@@ -219,6 +219,8 @@ func strategyName(s simrt.StrategyConfig) string {
 		return fmt.Sprintf("pct%d", s.Depth)
 	case "rr":
 		return "rr"
+	case "rrq":
+		return "rrq"
 	}
 	return "random"
 }
